@@ -1462,6 +1462,10 @@ enumerate_namespace_versions (const gchar *namespace,
 
 	      name_end = strrchr (entry, '.');
 	      last_dash = strrchr (entry, '-');
+	      /* The version is everything after "<namespace>-"; a later dash
+	       * means the file belongs to another namespace (Foo-Bar-1.0) */
+	      if (last_dash != entry + strlen (namespace_dash) - 1)
+		continue;
 	      version = g_strndup (last_dash+1, name_end-(last_dash+1));
 	      if (!parse_version (version, &major, &minor))
 		{
